@@ -261,6 +261,23 @@ func runC01(w *core.World, r *core.Report) {
 		return true
 	}
 	singleWriter("render.Sizer", "outputSize", map[string]bool{"render.NewSizer": true}, fromParam)
+	// the configured limit itself is never rewritten by the library
+	{
+		bad := ""
+		var badPos token.Pos
+		for _, fn := range w.LibFuncs {
+			for _, in := range allInstrs(fn) {
+				if st, ok := in.(*ssa.Store); ok {
+					if tn, f, ok := core.FieldOfAddr(st.Addr); ok && strings.HasSuffix(tn, "engine.Config") && f == "OutputSize" {
+						bad = fmt.Sprintf("%s stores Config.OutputSize at %s", core.QName(fn), w.Pos(st.Pos()))
+						badPos = st.Pos()
+					}
+				}
+			}
+		}
+		r.Check(bad == "", "R3", "engine.Config.OutputSize is never rewritten by the library", badPos, "no store to the field",
+			"the library changes the configured output size (a minimum, a rounding): the audit then runs against another limit than the one the application configured: "+bad)
+	}
 	singleWriter("vm.Vm", "sizer", map[string]bool{"vm.NewVm": true}, fromParam)
 	singleWriter("render.Page", "sizer", map[string]bool{"render.(*Page).WithSizer": true}, fromParam)
 	// engine passes NewSizer(cfg.OutputSize) to NewVm when OutputSize > 0
@@ -278,29 +295,7 @@ func runC01(w *core.World, r *core.Report) {
 				continue
 			}
 			nvm++
-			okSz, okGuard := false, false
-			for _, s := range core.Sources(args[3]) {
-				if sc, ok := s.(*ssa.Call); ok && core.IsCallTo(sc, "render.NewSizer") {
-					if _, f, ok := core.LoadedField(sc.Call.Args[0]); ok && f == "OutputSize" {
-						okSz = true
-					}
-				} else if !core.IsNilConst(s) {
-					okSz = false
-					break
-				}
-			}
-			// the nil alternative only when OutputSize == 0
-			for _, b := range fn.Blocks {
-				for _, in := range b.Instrs {
-					if bo, ok := in.(*ssa.BinOp); ok {
-						if x, op, k, ok := core.CmpConst(bo); ok && k == 0 && (op == token.GTR || op == token.NEQ) {
-							if _, f, ok := core.LoadedField(x); ok && f == "OutputSize" {
-								okGuard = true
-							}
-						}
-					}
-				}
-			}
+			okSz, okGuard := sizerFromConfig(fn, args[3], 0)
 			r.Check(okSz && okGuard, "R3", core.QName(fn)+": NewVm(NewSizer(cfg.OutputSize))", c.Pos(), "sizer built from cfg.OutputSize when > 0", "the VM's sizer is not built from Config.OutputSize on the OutputSize > 0 path")
 		}
 	}
@@ -438,4 +433,52 @@ func describeSource(s ssa.Value) string {
 		return "result of " + core.CallName(c)
 	}
 	return s.String()
+}
+
+// sizerFromConfig: v (the sizer handed to NewVm) is render.NewSizer(cfg.OutputSize) or nil - built
+// in scope or in a helper of the engine that returns it - and the function that builds it
+// compares Config.OutputSize with 0 (the nil alternative belongs to OutputSize == 0).
+func sizerFromConfig(scope *ssa.Function, v ssa.Value, depth int) (okSz, okGuard bool) {
+	okSz = false
+	bad := false
+	for _, s := range core.Sources(v) {
+		sc, isCall := s.(*ssa.Call)
+		switch {
+		case isCall && core.IsCallTo(sc, "render.NewSizer"):
+			if _, f, ok := core.LoadedField(sc.Call.Args[0]); ok && f == "OutputSize" {
+				okSz = true
+			} else {
+				bad = true
+			}
+		case core.IsNilConst(s):
+		case isCall && depth < 2 && core.StaticCallee(sc) != nil && core.PkgOf(core.StaticCallee(sc)) == "engine" && len(core.StaticCallee(sc).Blocks) > 0:
+			g := core.StaticCallee(sc)
+			for _, in := range allInstrs(g) {
+				if ret, ok := in.(*ssa.Return); ok && len(ret.Results) == 1 {
+					sz, gd := sizerFromConfig(g, ret.Results[0], depth+1)
+					if sz {
+						okSz = true
+					}
+					if gd {
+						okGuard = true
+					}
+				}
+			}
+		default:
+			bad = true
+		}
+	}
+	if bad {
+		okSz = false
+	}
+	for _, in := range allInstrs(scope) {
+		if bo, ok := in.(*ssa.BinOp); ok {
+			if x, op, k, ok := core.CmpConst(bo); ok && k == 0 && (op == token.GTR || op == token.NEQ || op == token.EQL || op == token.LEQ) {
+				if _, f, ok := core.LoadedField(x); ok && f == "OutputSize" {
+					okGuard = true
+				}
+			}
+		}
+	}
+	return okSz, okGuard
 }
